@@ -46,7 +46,7 @@ def gen_cases(tier, seed):
                 cases.append({"id": "L/%s/%d/%s" % (what, ln, route), "biglist": what, "length": ln, "route": route, "seed": ln})
     # metadata that came from another writer (file-level fields fastparquet never writes itself: column_orders) and is re-serialised by
     # merge / append / remove_row_groups / in-place key-value update
-    for i, op in enumerate(["merge", "merge_append", "merge_remove", "update_kv", "merge_overwrite", "write_common", "selection", "merge_handles", "merge_handles_append"] * (2 if tier == "quick" else 20)):
+    for i, op in enumerate(["merge", "merge_append", "merge_remove", "update_kv", "merge_overwrite", "write_common", "selection", "merge_handles", "merge_handles_append", "merge_noverify"] * (2 if tier == "quick" else 20)):
         cases.append({"id": "RS/%s/%d" % (op, i), "reser": op, "seed": 7000 + i, "route": "foreign", "nfiles": 2 + i % 3})
     return cases
 
@@ -144,7 +144,21 @@ def reserialise_case(case):
             check(os.path.join(root, "_common_metadata"), "write_common")
         else:
             # (the pieces given as paths, or as handles the caller opened itself)
-            FW.merge([fastparquet.ParquetFile(p_) for p_ in paths] if op.startswith("merge_handles") else paths)
+            if op == "merge_noverify":
+                # three or more files, no schema verification: the footers are fetched together and spliced; every chunk of the summary must
+                # say which file it lives in (checked by decoding the pages through _metadata)
+                extra_ = os.path.join(root, "part.%d.parquet" % len(paths))
+                import shutil
+                if len(paths) < 3:
+                    shutil.copy(paths[-1], extra_)
+                    paths.append(extra_)
+                FW.merge(paths, verify_schema=False)
+                info_ = R.read_file(os.path.join(root, "_metadata"), data_dir=root)
+                for code, where, detail in info_.diags:
+                    res["failures"].append({"kind": "idl_violation", "code": code, "where": "merge(verify_schema=False):_metadata:" + where, "detail": detail[:120], **ctx})
+                counters["summaries_of_unverified_merges_decoded"] = counters.get("summaries_of_unverified_merges_decoded", 0) + 1
+            else:
+                FW.merge([fastparquet.ParquetFile(p_) for p_ in paths] if op.startswith("merge_handles") else paths)
             check(os.path.join(root, "_metadata"), "merge:_metadata")
             check(os.path.join(root, "_common_metadata"), "merge:_common_metadata")
             if op in ("merge_append", "merge_handles_append"):
